@@ -42,7 +42,7 @@ def engine_m(prop, tier):
     return obs, meta
 
 
-M_PROPS = {"C08", "C15"}          # extended as the other mirsym checks land
+M_PROPS = {"C08", "C15", "C03"}   # extended as the other mirsym checks land
 M_ONLY = {"C15"}
 
 
@@ -51,18 +51,34 @@ def dispatch(prop, tier, only, use_cache, engine_k):
     t0 = time.time()
     has_k = any(prop in m["props"] for m in HARNESSES.values()) and prop not in M_ONLY
     ev, violations, machinery = None, [], []
+    mres = {}
+    mth = None
+    if prop in M_PROPS and not only:
+        import threading
+
+        def _m():
+            try:
+                mres["obs"], mres["meta"] = engine_m(prop, tier)
+            except Exception as e:  # machinery problem, never a pass
+                import traceback
+                mres["err"] = traceback.format_exc()[-1500:]
+        mth = threading.Thread(target=_m, daemon=True)
+        mth.start()
     if has_k:
         ev, violations, machinery = engine_k(prop, tier, only, use_cache)
-    if prop in M_PROPS and not only:
-        try:
-            obs, meta = engine_m(prop, tier)
-        except Exception as e:  # machinery problem, never a pass
-            import traceback
-            machinery.append("engine M failed: %s" % traceback.format_exc()[-1500:])
-            obs, meta = [], dict(error=repr(e))
+    if mth is not None:
+        mth.join()
+        if "err" in mres:
+            machinery.append("engine M failed: %s" % mres["err"])
+            obs, meta = [], dict(error=mres["err"][-300:])
+        else:
+            obs, meta = mres["obs"], mres["meta"]
+        notes = [o for o in obs if o.get("kind") == "note"]
+        obs = [o for o in obs if o.get("kind") != "note"]
         n = len(obs)
         ok = sum(1 for o in obs if o["verdict"] == "holds")
         bad = [o for o in obs if o["verdict"] == "violated"]
+        known = json.load(open(os.path.join(VERIF, "known_findings.json"))).get("findings", [])
         inc = [o for o in obs if o["verdict"] == "inconclusive"]
         for o in inc[:5]:
             machinery.append("engine M inconclusive: %s %s" % (o["id"], str(o.get("detail", ""))[:300]))
@@ -73,12 +89,18 @@ def dispatch(prop, tier, only, use_cache, engine_k):
             json.dump(dict(property=prop, engine="mirsym", obligation=o), open(path, "w"), indent=1, default=str)
             conf = m_replay(prop, o)
             o["native_replay"] = conf
-            if conf.get("confirmed"):
+            kf = [k for k in known if k.get("status", "open") == "open" and k["property"] == prop
+                  and o.get("region", "base") == k["region"] and o.get("region", "base") != "base"]
+            if conf.get("confirmed") and kf:
+                print("KNOWN-FINDING: property=%s %s [%s[%s] via mirsym]" % (prop, kf[0]["what"], o["id"], o.get("region")), flush=True)
+                o["known_finding"] = kf[0].get("id", "")
+            elif conf.get("confirmed"):
                 violations.append((dict(tag=o["id"], region="base", harness="mirsym", how=conf.get("how", "")), path))
                 print("VIOLATION property=%s replay=%s  (%s: %s)" % (prop, path, o["id"], conf.get("how", "")), flush=True)
             else:
                 machinery.append("engine M counterexample for %s did not reproduce natively: %s" % (o["id"], conf.get("how", "")))
         mcov = dict(m_obligations=n, m_discharged=ok, m_violated=len(bad), m_inconclusive=len(inc),
+                    m_notes=[{k: v for k, v in o.items() if k in ("id", "region", "verdict", "model", "detail")} for o in notes],
                     m_solver_time_s=round(sum(o.get("solver_s", 0) for o in obs), 3),
                     m_functions_encoded=sorted(set(f for o in obs for f in (o.get("functions") or ([o["function"]] if o.get("function") else [])))),
                     m_meta=meta,
@@ -129,4 +151,10 @@ def m_replay(prop, o):
                            capture_output=True, text=True, timeout=120)
         bad = "MISMATCH" in r.stdout or r.returncode < 0
         return dict(confirmed=bad, how=(r.stdout.strip()[-300:] or "signal %d" % -r.returncode))
+    if prop == "C03" and o.get("region") == "oversampling_1":
+        # the leaf deviation is reachable through the public API: the Kani harness of the same region, natively
+        h = "c03_sfo_os1_cubic" if o["id"].endswith("_4") else "c03_sfo_os1_quadratic"
+        r = K.replay_native(h, ["20", "00", "0000000000000000", "0000000000000000"], "dev")
+        hit = any(t.startswith("C03.kernel_subindex") for t in r["fired"])
+        return dict(confirmed=hit, how="native replay of %s: fired=%s" % (h, ",".join(r["fired"])))
     return dict(confirmed=False, how="no native replay for this obligation")
